@@ -19,6 +19,10 @@ from vlib import core
 from checks import semantics_common as sc
 
 PY_LANG = "    - python:\n        generate_json_marshaller: true\n"
+# Go: only what C10 / C11 speak of - constructors and the JSON (un)marshallers. Equals / Validate / the strict decoder are other
+# properties' subjects (C13, C08): generated with them, a defect that makes THEIR code not compile would remove the whole package and
+# hide the constructor / wire behaviour of the same change (MUTATION_CLASSES 11, 15)
+GO_FLAGS = {"generate_json_marshaller": True, "generate_strict_unmarshaller": False, "generate_equal": False, "generate_validate": False}
 PYTHON = "/usr/bin/python3"
 ID_BASE = 10000
 MC = ("SemanticsDefaultsMC", "SemanticsDefaultsMC.cfg")
@@ -31,7 +35,11 @@ N_GENERATED = 250
 # tokens: values TLC cannot hold (non-ASCII / escaped strings, integers beyond its 32 bits) travel as tokens in the
 # specification's universe and as the real value through cog, the generated code and the reference validators
 # ----------------------------------------------------------------------------------------------
-STR_TOKENS = {"@uni": "h\u00e9llo \u2713 \u65e5\u672c", "@esc": 'a"b\\c\nd\te'}
+STR_TOKENS = {"@uni": "h\u00e9llo \u2713 \u65e5\u672c", "@esc": 'a"b\\c\nd\te',
+              # backslashes that FORM escapes in a hand-written literal (\t \n \x41 \\ and a trailing one), both kinds of quotes
+              "@bs": "C:" + chr(92) + "temp" + chr(92) + "new" + chr(92) + "x41" + chr(92) + chr(92) + "e'q'" + chr(92),
+              # the same without the trailing backslash (the Go jenny's own hand-escaped literals do not survive that one: C02)
+              "@bt": "a" + chr(92) + "tb" + chr(92) + "new" + chr(92) + "x41" + chr(92) + chr(92) + "e'q'"}
 NUM_TOKENS = {7770001: 2 ** 53 + 1, 7770002: 2 ** 31 - 1, -7770002: -2 ** 31, 7770003: 2 ** 63 - 1, -7770003: -2 ** 63,
               7770004: 2 ** 64 - 1, 7770005: 2 ** 32 - 1, 7770006: 2 ** 24 + 1, 7770007: 3 * 10 ** 9, 7770008: 2 ** 53, -7770008: -2 ** 53}
 _STR_BACK = {v: k for k, v in STR_TOKENS.items()}
@@ -220,9 +228,33 @@ def _spell(x, spell):
     raise ValueError(spell)
 
 
-def _json_text(text, spell):
+_JS_SCALAR = ("string", "integer", "number", "boolean")
+
+
+def _json_text(text, spell, fmt="jsonschema"):
     doc = detok(json.loads(text))
     if spell == "plain":
+        return json.dumps(doc, indent=1)
+    if spell in ("const-first", "const-last"):
+        if fmt == "openapi":
+            raise sc.NotExpressible("openapi: no `const` to write T | constant with")
+        hit = [0]
+
+        def rewrite(node):
+            if isinstance(node, dict):
+                for k, v in list(node.items()):
+                    if isinstance(v, dict) and "default" in v and v.get("type") in _JS_SCALAR and set(v) <= {"type", "default", "format"}:
+                        branches = [{"const": v["default"]}, {k2: v[k2] for k2 in v if k2 != "default"}]
+                        node[k] = {"anyOf": branches if spell == "const-first" else branches[::-1]}
+                        hit[0] += 1
+                    else:
+                        rewrite(v)
+            elif isinstance(node, list):
+                for v in node:
+                    rewrite(v)
+        rewrite(doc)
+        if not hit[0]:
+            raise sc.NotExpressible("no scalar default to write as T | constant")
         return json.dumps(doc, indent=1)
     nums = []
 
@@ -267,12 +299,30 @@ def _cue_text(text, spell):
     # a nullable field with a default: the flat disjunction `T | null | *d` (cog rejects the parenthesised `(T | null) | *d` with
     # "unexpected node with kind '(null|T)'" - same CUE value, the flat one is the spelling it reads)
     text = re.sub(r"(?m)^(\s*\w+\??: )\((.+) \| null\) \| \*", r"\1\2 | null | *", text)
+    # field labels that are not identifiers are quoted ("max-value", "a b", "1st")
+    out_lines = []
+    for ln in text.split("\n"):
+        m = re.match(r"^(\t+)([^\t:\"#(\[{][^:]*?)(\??): ", ln)
+        if m and not re.fullmatch(r"[A-Za-z_$][A-Za-z0-9_$]*", m.group(2)):
+            ln = m.group(1) + json.dumps(m.group(2)) + m.group(3) + ": " + ln[m.end():]
+        out_lines.append(ln)
+    text = "\n".join(out_lines)
     # CUE tells 2 from 2.0: the default of a float-typed field is spelled as a float
     text = _CUE_FLOAT_INT_DEFAULT.sub(lambda m: m.group(1) + m.group(2) + ".0", text)
     if spell == "plain":
         return text
     lines = text.split("\n")
     hit = 0
+    if spell in ("const-first", "const-last"):
+        # `v: string | *"utc"`  ->  `v: "utc" | string` / `v: string | "utc"` (no default marker: the compiler pass makes it one)
+        for i, ln in enumerate(lines):
+            m = re.match(r"^(\s*\S+\??: )\(?([a-z0-9]+)\)? \| \*(.+)$", ln)
+            if m:
+                lines[i] = m.group(1) + ("%s | %s" % (m.group(3), m.group(2)) if spell == "const-first" else "%s | %s" % (m.group(2), m.group(3)))
+                hit += 1
+        if not hit:
+            raise sc.NotExpressible("cue: no scalar default to write as T | constant")
+        return "\n".join(lines)
     for i, ln in enumerate(lines):
         if " | *" not in ln:
             continue
@@ -328,7 +378,22 @@ def make_render_hook(batch):
         if fmt != "cue" and '"default": %d' % 7770004 in text:
             # JSON Schema / OpenAPI integers are signed 64-bit for cog (no unsigned type to declare): 2^64-1 is outside the field's type
             raise sc.NotExpressible("%s: no unsigned 64-bit integer type" % fmt)
-        return _cue_text(text, spell) if fmt == "cue" else _json_text(text, spell)
+        return _cue_text(text, spell) if fmt == "cue" else _json_text(text, spell, fmt)
+    return hook
+
+
+_PASSES = "passes:\n  - disjunction_with_constant_to_default: {}\n"
+
+
+def make_yaml_hook(batch):
+    """units whose default is spelled `T | constant` enable the (opt-in) compiler pass that reads it as a default"""
+    def hook(sid, fmt, pkg, ytext):
+        if batch.cat[sid].get("spell") not in ("const-first", "const-last"):
+            return ytext
+        path = os.path.join(batch.gen_dir, "_in", "c10-passes.yaml")
+        if not os.path.exists(path):
+            open(path, "w").write(_PASSES)
+        return ytext + "transformations:\n  schemas:\n    - '%s'\n" % path
     return hook
 
 
@@ -341,6 +406,7 @@ def run_batch(ctx, select, want_cases=False, want_defaults=False, formats=sc.FOR
     b.cat = dict(sc.load_catalogue(ctx)) if with_base else {}
     b.cat.update(load_def_catalogue(ctx))
     b.render_hook = make_render_hook(b)
+    b.yaml_hook = make_yaml_hook(b)
     b.generated_pool = 0
     if deep:
         b.cat.update(load_deep_catalogue(ctx))
@@ -360,7 +426,7 @@ def run_batch(ctx, select, want_cases=False, want_defaults=False, formats=sc.FOR
         missing = [i for i in b.ids if b.cat[i]["schema"]["root"] not in b.defaults.get(i, {})]
         if missing:
             raise core.Inconclusive("no DefaultDoc for schemas %s" % missing[:5])
-    sc.generate(ctx, b, go_flags, (PY_LANG,), formats)
+    sc.generate(ctx, b, GO_FLAGS if go_flags is None else go_flags, (PY_LANG,), formats)
     try:
         sc.build(ctx, b)
     except core.Inconclusive as e:
@@ -800,6 +866,7 @@ def unit_problems(batch):
     for u in batch.units.values():
         if u["status"] not in ("ok",):
             why = " ".join((u.get("why") or "; ".join(u.get("diagnostics", [])) or u.get("refval_err") or "").split()).replace(u["pkg"], "<pkg>")
+            why = re.sub(r"0x[0-9a-f]+", "0x..", why)
             out["%s/go/%s: %s" % (u["fmt"], u["status"], why[:200])] += 1
         if u.get("py") == "not_executable":
             out["%s/python/not_executable: %s" % (u["fmt"], u.get("py_err", "")[:140])] += 1
